@@ -66,6 +66,9 @@ class NodeV(V):
         self.parent = parent
         self.via = via
         self.neq: set = set()  # identities known to differ (for == on nodes)
+        # when the node is a Call: what is known about its function's dotted name on this path
+        self.call_in = None  # type: Optional[set]
+        self.call_out: set = set()
 
     def __repr__(self):
         ks = ",".join(sorted(self.kinds))
